@@ -568,6 +568,12 @@ func c17Mismatch(w *W, r *rand.Rand, la, lb int) {
 		w.Inc("empty_literal_left")
 		w.Inc("empty_literal_right")
 	}
+	// an empty list held in a variable keeps the element type of its Go type (only the literal () is typeless)
+	for _, ev := range []interface{}{[]int{}, []int32{}, []int64{}, []int(nil), []int32(nil)} {
+		expectErr(Op("in", TBool, Lit("a"), Var("E", TAny)), map[string]interface{}{"E": ev}, fmt.Sprintf("membership of a string in an empty %T variable", ev))
+		expectErr(Op("overlap", TBool, Var("E", TAny), sb.lit()), map[string]interface{}{"E": ev}, fmt.Sprintf("overlap of an empty %T variable with a string list", ev))
+		expectErr(Op("overlap", TBool, sb.lit(), Var("E", TAny)), map[string]interface{}{"E": ev}, fmt.Sprintf("overlap of a string list with an empty %T variable", ev))
+	}
 	expectFalse(Op("overlap", TBool, empty, empty), nil, "overlap of two empty literals")
 	expectFalse(Op("in", TBool, Lit(int64(1)), empty), nil, "membership in the empty literal (int)")
 	expectFalse(Op("in", TBool, Lit("a"), empty), nil, "membership in the empty literal (string)")
